@@ -74,6 +74,61 @@ def sched_real(kinds, gaps, T):
     return _judge_sched(out, kinds, ts, T, RID, METHOD, PARAMS)
 
 
+def _tok(wire_items):
+    d = dump(wire_items[0][1])
+    return ((d.get("params") or {}).get("_meta") or {}).get("progressToken")
+
+
+class _LazyTok(list):
+    def __getitem__(self, n):
+        t, it = list.__getitem__(self, n)
+        if isinstance(it, _Lazy):
+            it = build(it.k, it.i, RID, _tok(ENV.wire))
+        return (t, it)
+
+
+def sched_cb(kinds, gaps, T, real=False):
+    """Same family with a progress callback installed (a progress token is added to the request):
+    the id filter must behave identically."""
+    ts = abs_ticks(gaps)
+    rec = []
+
+    async def cb(p, t, m):
+        rec.append(p)
+
+    call = lambda r, w, tmo: SM.send_message(r, w, METHOD, dict(PARAMS), timeout=tmo, message_id=RID, progress_callback=cb)
+    if not real:
+        items = [(ts[i], _Lazy(kinds[i], i)) for i in range(len(kinds))]
+        out = run_stub(_LazyTok(items), lambda r, w: call(r, w, T))
+    else:
+        from symcheck.env import TICKS_PER_SEC
+
+        script = [(ts[i], (lambda w, i=i: build(kinds[i], i, RID, _tok(w)))) for i in range(len(kinds))]
+        out = sm.run_real(script, lambda r, w: call(r, w, T / TICKS_PER_SEC), T)
+    if len(out.wire) < 1:
+        return "wire:nothing-written"
+    tok = _tok(out.wire)
+    if not isinstance(tok, str) or not tok:
+        return "wire:no-progress-token"
+    want = dict(PARAMS)
+    want["_meta"] = {"progressToken": tok}
+    r = _judge_sched(out, kinds, ts, T, RID, METHOD, want)
+    if r != "ok":
+        return r
+    n_ok = 0
+    exp, idx = _expected(kinds, ts, T)
+    for i in range(len(kinds)):
+        if kinds[i] == K_PROG_OK and ((exp == "timeout" and ts[i] < T) or (exp != "timeout" and i < idx)):
+            n_ok += 1
+    if len(rec) != n_ok:
+        return "progress-callback-count"
+    return "ok"
+
+
+def sched_cb_real(kinds, gaps, T):
+    return sched_cb(kinds, gaps, T, real=True)
+
+
 # ------------------------------------------------------------------ id family (backend F)
 def idfam(kinds, gaps, T, rid, other):
     """Symbolic request id (str) and symbolic distractor id (str or int)."""
